@@ -22,7 +22,7 @@ Checks of a control-flow operator invocation (caller frame = the frame executing
 `missing_composite_written_back`, computed from the case (some composite name of the tuple raised
 KeyError/AttributeError when evaluated in the caller frame before the probe).
 """
-import inspect, sys
+import ast, inspect, sys
 
 
 class Sentinel(object):
@@ -55,6 +55,28 @@ class _Missing(object):
 
 def is_composite(name):
     return '.' in name or '[' in name
+
+
+def index_vars(name):
+    """Variables used as subscripts inside a qualified-name string (`dd[x]` -> {'x'})."""
+    try:
+        tree = ast.parse(name, mode='eval')
+    except SyntaxError:
+        return set()
+    out = set()
+    for n in ast.walk(tree):
+        if isinstance(n, ast.Subscript):
+            for m in ast.walk(n.slice):
+                if isinstance(m, ast.Name):
+                    out.add(m.id)
+    return out
+
+
+def dependent_entries(names):
+    """Finding class `state_entry_indexes_by_state_entry` (Lean: dependentEntries): the location of some entry of the
+    tuple depends on a variable that the same tuple rewrites."""
+    simple = {n for n in names if not is_composite(n)}
+    return any(index_vars(n) & simple for n in names if is_composite(n))
 
 
 class Instrument(object):
@@ -143,15 +165,60 @@ class Instrument(object):
         log = frame.f_globals.get('LOG')
         return len(log) if isinstance(log, list) else None
 
-    def restore(self, frame, set_state, s1, names, before):
-        """Write the original values back and delete the composites the probe created."""
-        set_state(s1)
-        for n, b in zip(names, before):
-            if isinstance(b, _Missing) and is_composite(n):
-                try:
-                    exec('del ' + n, frame.f_globals, frame.f_locals)
-                except Exception:
-                    pass
+    def containers(self, frame, names):
+        """The container objects of the composite entries with a copy of their content (taken before any probe)."""
+        out = []
+        for n in names:
+            if not is_composite(n):
+                continue
+            try:
+                node = ast.parse(n, mode='eval').body
+                obj = eval(compile(ast.Expression(node.value), '<c03>', 'eval'), frame.f_globals, frame.f_locals)
+            except Exception:
+                continue
+            if isinstance(obj, (self.Undefined, Sentinel)) or any(obj is o for o, _ in out):
+                continue
+            if isinstance(obj, dict):
+                out.append((obj, dict(obj)))
+            elif isinstance(obj, list):
+                out.append((obj, list(obj)))
+            elif hasattr(obj, '__dict__'):
+                out.append((obj, dict(obj.__dict__)))
+        return out
+
+    def aliased(self, frame, names):
+        """Two composite entries denote the same location at call time (Lean: aliasedEntries)."""
+        seen = set()
+        for n in names:
+            if not is_composite(n):
+                continue
+            try:
+                node = ast.parse(n, mode='eval').body
+                obj = eval(compile(ast.Expression(node.value), '<c03>', 'eval'), frame.f_globals, frame.f_locals)
+                if isinstance(node, ast.Subscript):
+                    key = ('item', repr(eval(compile(ast.Expression(node.slice), '<c03>', 'eval'), frame.f_globals, frame.f_locals)))
+                else:
+                    key = ('attr', node.attr)
+            except Exception:
+                continue
+            k = (id(obj),) + key
+            if k in seen:
+                return True
+            seen.add(k)
+        return False
+
+    def restore(self, frame, set_state, s1, names, before, conts):
+        """Write the original values back, then give every container exactly the content it had before the probes."""
+        try:
+            set_state(s1)
+        finally:
+            for obj, snap in conts:
+                if isinstance(obj, dict):
+                    obj.clear(); obj.update(snap)
+                elif isinstance(obj, list):
+                    obj[:] = snap
+                else:
+                    obj.__dict__.clear(); obj.__dict__.update(snap)
 
     # ------------------------------------------------------------------ the contract of a control-flow operator call
     def check_state(self, op, frame, get_state, set_state, names, callbacks, nouts=None, opts=None):
@@ -174,6 +241,7 @@ class Instrument(object):
         # state probes
         n0 = self.log_len(frame)
         before = self.frame_vals(frame, names)
+        conts = self.containers(frame, names)
         try:
             s1 = get_state()
         except (NameError, KeyError, AttributeError, IndexError, TypeError) as e:
@@ -204,14 +272,19 @@ class Instrument(object):
             if self.log_len(frame) != n0:
                 self.fail('set_state/get_state produce tracer events', None, **ctx)
             # write then read
+            aliased = self.aliased(frame, names)
             vs = tuple(Sentinel(i) for i in range(len(names)))
             set_state(vs)
             s4 = get_state()
             f4 = self.frame_vals(frame, names)
+            cls2 = ('state_entry_indexes_by_state_entry' if dependent_entries(names)
+                    else 'aliased_state_entries' if aliased else None)
             if not (len(s4) == len(vs) and all(a is b for a, b in zip(s4, vs))):
-                self.fail('get_state() after set_state(vs) is not vs', None, got=s4, **ctx)
+                self.fail('get_state() after set_state(vs) is not vs', cls2, got=s4, **ctx)
             if not all(a is b for a, b in zip(f4, vs)):
-                self.fail('after set_state(vs) the caller-frame variables are not vs', None, got=f4, **ctx)
+                self.fail('after set_state(vs) the caller-frame variables are not vs', cls2, got=f4, **ctx)
+            if dependent_entries(names):
+                self.count('probed_with_dependent_entries')
             self.count('probed')
             if names:
                 self.count('probed_nonempty')
@@ -224,7 +297,7 @@ class Instrument(object):
                       undefined_roots=roots_undefined, **ctx)
         finally:
             try:
-                self.restore(frame, set_state, s1, names, before)
+                self.restore(frame, set_state, s1, names, before, conts)
                 fin = self.frame_vals(frame, names)
                 if not self.same_tuple(before, fin):
                     self.count('RESTORE-FAILED')
